@@ -143,6 +143,7 @@ def plan(prop, tier):
                  ("gram-q-vary", ["gram", "--family", "q", "--props", "C02,C03,C04,C13", "--n", "3" if q else "4", "--tm", "vary", "--la", "1", "--cost", "0,1", "--rec", "1", "--cms", "3", "--ams", "0,1", "--digest"], NPROC),
                  ("gram-qe", ["gram", "--family", "qe", "--props", "C06,C07,C08", "--n", "4", "--la", "0,1,2", "--one", "0,1", "--cost", "0", "--rec", "0,1", "--match", "1,3", "--digest"], NPROC),
                  ("gram-cur", ["gram", "--family", "cur", "--props", "C01,C03,C07", "--n", "5" if q else "6", "--cost", "0", "--digest"], NPROC),
+                 ("gram-c13", ["gram", "--family", "cur", "--props", "C13", "--n", "4", "--fresh", "--la", "1", "--ams", "0,1,2", "--digest"], NPROC),
                  ("def", ["def", "--sample", "7" if q else "1"], NPROC),
                  ("txt-mut", ["txt", "--mode", "mutations", "--inputs", "1", "--prop", "C11"], NPROC),
                  ("txt-printed", ["txt", "--mode", "printed", "--family", "mini", "--tm", "vary", "--inputs", "2", "--prop", "C11"], NPROC),
@@ -180,10 +181,10 @@ def plan(prop, tier):
                  bounds={"note": "quick spaces of C01-C15"}, require={"parses": 100000, "c16_digest_groups_compared": 500})
     elif prop == "C18":
         gen = os.path.join(os.environ.get("VERIF_BUILD", os.path.join(os.path.dirname(os.path.dirname(os.path.abspath(__file__))), "build")), "gen")
-        jobs = [Job("scale", "c-perf", ["scale", "--jmax", "5" if q else "9", "--ansic-desc", gen + "/ansic_desc.txt", "--ansic-toks", gen + "/ansic_tokens.txt"], 15)]
+        jobs = [Job("scale", "c-perf", ["scale", "--jmax", "5" if q else "9", "--ansic-desc", gen + "/ansic_desc.txt", "--ansic-toks", gen + "/ansic_tokens.txt"], 25)]
         P = dict(base, level="exploration", jobs=jobs, states_key="parses", transitions_key="parses", nontrivial_key="doublings",
-                 rule="complete finite grid: 4 deterministic left-recursive grammar/input families (list, flat sums, nested arithmetic, nested statement list) x lengths 1000*2^j, j = 0..5 (thorough 0..9 = 512k tokens) x lookahead 0,1,2; measured per parse: bytes and requests asked from the allocator (YAEP_VERIF hook), hash table searches and collisions (exported counters), unique sets / set cores / goto-cache successes (level-1 statistics); oracle: frozen doubling-ratio limits and per-token caps calibrated with head-room on the unchanged tree, constant number of set cores, at most linear number of sets, >= 20 % of the transitions from the goto cache on the nesting inputs; distinct_nontrivial = length doublings compared",
-                 bounds={"max_tokens": 32000 if q else 512000, "lookahead": [0, 1, 2]}, require={"parses": 48, "doublings": 40},
+                 rule="complete finite grid: 4 deterministic left-recursive grammar/input families (list, flat sums, nested arithmetic, nested statement list) x lengths 1000*2^j, j = 0..5 (thorough 0..9 = 512k tokens) x lookahead 0,1,2 (one parse) and, at lookahead 1, also all-parses mode and one parse with the cost flag; plus the ANSI C grammar of the test suite on test.i concatenated 1, 2, 4 (8) times; measured per parse: bytes and requests asked from the allocator (YAEP_VERIF hook), hash table searches and collisions (exported counters), unique sets / set cores / goto-cache successes (level-1 statistics); oracle: frozen doubling-ratio limits and per-token caps calibrated with head-room on the unchanged tree, constant number of set cores, at most linear number of sets, >= 20 % of the transitions from the goto cache on the nesting inputs; distinct_nontrivial = length doublings compared",
+                 bounds={"max_tokens": 32000 if q else 512000, "lookahead": [0, 1, 2]}, require={"parses": 80, "doublings": 60},
                  explanation="exhaustive over the stated grid; says nothing about n -> infinity; the ANSI C grammar on test.i is not part of the grid (needs the test suite's flex scanner)")
     elif prop == "C17":
         jobs = [Job("fault", "c-asan", ["fault", "--known-file", os.path.join(os.path.dirname(os.path.dirname(os.path.abspath(__file__))), "known_c17_cases.txt")], NPROC)]
